@@ -552,7 +552,7 @@ func checkFilters(p *Prog, r *Report, rg *registry) {
 	var extra []string
 	for _, el := range []string{"Extractor", "Detector"} {
 		for _, x := range loopSkips(fb, isAppendOf(el)) {
-			if strings.Contains(x, "ValidateRequirements") || (strings.HasPrefix(x, "builtin.len(param0)") && strings.Contains(x, "<=")) {
+			if strings.Contains(x, "ValidateRequirements") || strings.HasPrefix(x, "range-end: param0") {
 				continue
 			}
 			extra = append(extra, x)
